@@ -435,6 +435,8 @@ class EvpAls(Contract):
                 r = lambda j: heap.ref_at(ets, j)       # noqa
                 yield 'eigentensors-valid-and-fresh', FA(0, n, lambda j: heap.OK(self, r(j)))
                 yield 'eigentensors-pairwise-distinct-objects', z3.ForAll([j1, j2], z3.Implies(z3.And(0 <= j1, j1 < j2, j2 < n), r(j1) != r(j2)))
+                # every id (object, lists, core buffers) of a later eigentensor is younger than every id of an earlier one
+                yield 'eigentensors-share-nothing', z3.ForAll([j1, j2], z3.Implies(z3.And(0 <= j1, j1 < j2, j2 < n), heap.TOP(r(j1)) <= heap.BOT(r(j2))))
 
     def canary(self, S, res):
         return z3.BoolVal(False)
@@ -527,4 +529,5 @@ class EvpAls(Contract):
             yield 'eigentensors-valid-and-fresh', FA(0, zi(i), lambda j: heap.OK(me, r(j)))
             yield 'eigentensors-older-than-now', FA(0, zi(i), lambda j: heap.TOP(r(j)) <= V.state.mark)
             yield 'eigentensors-pairwise-distinct-objects', z3.ForAll([j1, j2], z3.Implies(z3.And(0 <= j1, j1 < j2, j2 < zi(i)), r(j1) != r(j2)))
+            yield 'eigentensors-share-nothing', z3.ForAll([j1, j2], z3.Implies(z3.And(0 <= j1, j1 < j2, j2 < zi(i)), heap.TOP(r(j1)) <= heap.BOT(r(j2))))
         return {self.K0: inv_init, self.KW: inv_while, self.KF: inv_fwd, self.KB: inv_bwd, self.KE: inv_end}.get(key)
